@@ -53,7 +53,7 @@ func cmdWorker(cfg runConfig) int {
 	solver = NewSolver(cfg.Solver, cfg.TimeoutMs, cfg.Seed)
 	defer solver.Close()
 	if cc := os.Getenv("GOSMT_CROSSCHECK"); cc != "" && cc != cfg.Solver {
-		newSolver2 = func() *Solver { return NewSolver(cc, crossCheckTimeoutMs(cfg.TimeoutMs), cfg.Seed) }
+		newSolver2 = func() *Solver { return NewCappedSolver(cc, crossCheckTimeoutMs(cfg.TimeoutMs), cfg.Seed, 2500) }
 		solver2 = newSolver2()
 		defer func() { solver2.Close() }()
 	}
@@ -108,6 +108,7 @@ func cmdWorker(cfg runConfig) int {
 			}
 			q0, u0, t0, start = solver.queries, solver.unknowns, solver.solveTime, time.Now()
 			cc0, cu0 = crossChecks, crossUnknown
+			crossTime = 0
 		}
 		out := runPath(i, fn, req.Prefix)
 		accountPath(cur, out)
